@@ -6,6 +6,7 @@ for i in 1 2 3; do
   [ -f $d/patch.diff ] || { echo "$p m$i: no patch"; continue; }
   mkdir -p /verif/seeded/${p}_m$i
   cp $d/patch.diff /verif/seeded/${p}_m$i/; cp $d/demo.* /verif/seeded/${p}_m$i/ 2>/dev/null; cp $d/meta.json /verif/seeded/${p}_m$i/agent_meta.json 2>/dev/null
-  echo "CONFIRM $(/verif/tools/confirm_mutant.sh $d ${p}m$i 2>&1 | tail -1)"
+  echo "CONFIRM $(CONFIRM_ID=$p /verif/tools/confirm_mutant.sh $d ${p}m$i 2>&1 | tail -1)"
   echo "CHECK ${p}_m$i: $(/verif/tools/seedtest.sh mut_$p $d/patch.diff $checks 2>&1 | grep -E '^(VIOLATION|OK)|\[check\]' | tr '\n' ' ' | cut -c1-600)"
 done
+git -C /repo worktree remove --force /tmp/confirm_wt_$p 2>/dev/null; rm -rf /tmp/confirm_target_$p /tmp/confirm_wt_$p
